@@ -226,11 +226,24 @@ def finding_dataclass_not_encodable():
         return True
 
 
+def finding_decimal_underflow():
+    from utype.utils.encode import JSONEncoder
+    dyn.declare("class KfDe(Schema):\n    d: Decimal\n")
+    K = dyn.get("KfDe")
+    inst = K(d=Decimal("1E-400"))
+    try:
+        back = K.__from__(json.dumps(inst, cls=JSONEncoder))
+        return back["d"] != inst["d"]
+    except Exception:
+        return True
+
+
 def main(tier, seed):
     warnings.simplefilter("ignore")
     res = core.Result(PID, tier, seed)
     core.prove(res, PID)
-    findings.replay_all(res, PID, {"C14-dataclass-not-encodable": finding_dataclass_not_encodable})
+    findings.replay_all(res, PID, {"C14-dataclass-not-encodable": finding_dataclass_not_encodable,
+                                   "C14-decimal-underflow": finding_decimal_underflow})
     rng = random.Random(seed * 151 + 14)
     if core.build(["Model/Temporal.vo", "Model/Validators.vo"])["ok"]:
         temporal_suite(res, rng, 1200 if tier == "quick" else 20000)
